@@ -95,6 +95,7 @@ class MultiTapering(Spectrum):
             self.psd = newpsd
         else:
             self.psd = self.Sk
+        self.scale()
         return self
 
     def __str_title(self):
